@@ -27,6 +27,7 @@ type Mutation struct {
 	Kind string `json:"kind"` // flip, set, trunc, len, type, insert
 	Off  int    `json:"off"`  // offset (modulo stream length) or index of the length field
 	Val  string `json:"val,omitempty"`
+	N    int    `json:"n,omitempty"` // nest: levels; bigtail: payload bytes that really follow
 }
 
 type GarbagePlan struct {
@@ -83,8 +84,23 @@ func genGarbage(seed uint64, tier, variant string) any {
 		return p
 	}
 	for i, m := 0, 1+r.IntN(2); i < m; i++ {
-		k := pick(r, "flip", "set", "trunc", "type", "len", "len", "len", "insert")
+		k := pick(r, "flip", "set", "trunc", "type", "len", "len", "len", "insert", "nest", "bigtail")
 		p.Muts = append(p.Muts, Mutation{Kind: k, Off: r.IntN(1 << 16), Val: evilLens[r.IntN(len(evilLens))]})
+		switch k {
+		case "nest":
+			// Off encodes (position, aggregate type); N levels of headers with a declared length
+			p.Muts[i].Val = pick(r, "1", "2", "100000000", "26214", "4294967296", evilLens[r.IntN(len(evilLens))])
+			p.Muts[i].N = pick(r, 10, 500, 3000, 9999, 10001, 20000)
+			if r.IntN(40) == 0 {
+				p.Muts[i].Val, p.Muts[i].N = "1", 6_000_000 // deep enough to exhaust a goroutine stack if the decoder recurses freely
+			}
+		case "bigtail":
+			// a blob whose declared length is wrong or huge, followed by N bytes of real payload
+			p.Muts[i].N = pick(r, 0, 100, 70_000, 1<<20+100, 3<<20)
+			if r.IntN(2) == 0 {
+				p.Muts[i].Val = pick(r, "100663296", "1073741824", "4611686018427387904", "9223372036854775807")
+			}
+		}
 	}
 	return p
 }
@@ -168,6 +184,17 @@ func mutate(b []byte, m Mutation) []byte {
 		c = append(c, m.Val...)
 		c = append(c, b[f[1]:]...)
 		return c
+	case "nest":
+		hdr := string("*%~>|*"[(m.Off/len(b))%6]) + m.Val + "\r\n"
+		c := append([]byte(nil), b[:off]...)
+		c = append(c, bytes.Repeat([]byte(hdr), m.N)...)
+		c = append(c, b[off:]...)
+		return c
+	case "bigtail":
+		c := append([]byte(nil), b...)
+		c = append(c, string("$=!"[m.Off%3])+m.Val+"\r\n"...)
+		c = append(c, bytes.Repeat([]byte{'x'}, m.N)...)
+		return c
 	case "insert":
 		c := append([]byte(nil), b[:off]...)
 		c = append(c, "*"+m.Val+"\r\n"...)
@@ -229,12 +256,12 @@ func execGarbage(t *testing.T, plan any, out *Outcome) {
 	}()
 	runtime.ReadMemStats(&ms1)
 	alloc := ms1.TotalAlloc - ms0.TotalAlloc
-	limit := uint64(64*len(stream)) + 64<<20
+	limit := uint64(64*len(stream)) + 16<<20
 	if panicked != "" {
 		out.violate("C13", "decoder-panic", "decoding %d received bytes (a %d-byte well-formed stream after %v) panicked: %s; input %q", len(stream), orig, p.Muts, panicked, truncStr(string(stream), 120))
 	}
 	if alloc > limit {
-		out.violate("C13", "decoder-allocation", "decoding %d received bytes allocated %d bytes (limit 64x received + 64 MiB = %d) after %v; input %q", len(stream), alloc, limit, p.Muts, truncStr(string(stream), 120))
+		out.violate("C13", "decoder-allocation", "decoding %d received bytes allocated %d bytes (limit 64x received + 16 MiB = %d) after %v; input %q", len(stream), alloc, limit, p.Muts, truncStr(string(stream), 120))
 	}
 	out.judged("streams-decoded")
 	if decoded > 0 {
